@@ -40,4 +40,116 @@ theorem C14_gen_js_unsafe (W : Utv.Obj.World Unit) (c : Nat) (neg : Bool) :
       · have h2 : ¬ (9007199254740991 : Int) < (c : Int) := by omega
         simp [h0, h1, h2]
 
+open Utv.Obj
+
+/-! ### `duration_iso_string` (timedelta = its three normalised attributes; `str.format` on the fragment used) -/
+
+abbrev D := OVal Unit
+
+theorem fmt_main (sg ms : String) (d h m s : Int) :
+    strFormat (V := Unit) (OVal.str "{}P{}DT{:02d}H{:02d}M{:02d}{}S") [.str sg, .int d, .int h, .int m, .int s, .str ms]
+      = .ok (.str (String.ofList (sg.toList ++ ('P' :: (intRepr d ++ ('D' :: ('T' :: (padInt 2 h ++ ('H' ::
+          (padInt 2 m ++ ('M' :: (padInt 2 s ++ (ms.toList ++ ('S' :: [])))))))))))))) := by
+  rfl
+theorem fmt_ms (u : Int) :
+    strFormat (V := Unit) (OVal.str ".{:06d}") [.int u] = .ok (.str (String.ofList ('.' :: (padInt 6 u ++ [])))) := by
+  rfl
+
+theorem deltaUs_mk (us : Int) : deltaUs? (mkDelta us : D) = some us := by
+  simp only [mkDelta, deltaUs?]
+  congr 1
+  omega
+theorem ga_days (x : Int) : getattr (mkDelta x : D) "days" = .ok (.int (x / 86400000000)) := rfl
+theorem ga_seconds (x : Int) : getattr (mkDelta x : D) "seconds" = .ok (.int (x % 86400000000 / 1000000)) := rfl
+theorem ga_micro (x : Int) : getattr (mkDelta x : D) "microseconds" = .ok (.int (x % 1000000)) := rfl
+theorem fd60 (x : Int) : floordiv (.int x : D) (.int 60) = .ok (.int (x / 60)) := by
+  simp [floordiv, intOf?, Int.fdiv_eq_ediv_of_nonneg, pure, Except.pure]
+theorem md60 (x : Int) : Utv.Obj.mod (.int x : D) (.int 60) = .ok (.int (x % 60)) := by
+  simp [Utv.Obj.mod, intOf?, Int.fmod_eq_emod_of_nonneg, pure, Except.pure]
+theorem intRepr_of {i : Int} {n : Nat} (h : i = n) : intRepr i = natStr n := by
+  subst h; simp [intRepr, natStr, natDigits]
+theorem padInt_of {i : Int} {n : Nat} (w : Nat) (h : i = n) : padInt w i = pad w n := by
+  subst h
+  have : ¬ ((n : Int) < 0) := by omega
+  simp [padInt, pad, padDigits, natStr, natDigits, this]
+
+/-- the formatting of a non-negative duration of `a` microseconds, after the sign: what is left of the function once
+the attribute reads and the integer divisions are evaluated (the same whatever order the source does them in) -/
+theorem body (a : Nat) (sg : String) :
+    Except.bind (if ((a : Int) % 1000000 != 0) = true then strFormat (V := Unit) (OVal.str ".{:06d}") [OVal.int ((a : Int) % 1000000)]
+            else Except.ok (OVal.str ""))
+      (fun v => strFormat (OVal.str "{}P{}DT{:02d}H{:02d}M{:02d}{}S")
+          [OVal.str sg, OVal.int ((a : Int) / 86400000000), OVal.int ((a : Int) % 86400000000 / 1000000 / 60 / 60),
+            OVal.int ((a : Int) % 86400000000 / 1000000 / 60 % 60), OVal.int ((a : Int) % 86400000000 / 1000000 % 60), v])
+    = (.ok (.str (String.ofList (sg.toList ++ ('P' :: natStr (a / 86400000000) ++ 'D' :: 'T' ::
+        pad 2 (a % 86400000000 / 1000000 / 60 / 60) ++ 'H' :: pad 2 (a % 86400000000 / 1000000 / 60 % 60) ++ 'M' ::
+        pad 2 (a % 86400000000 / 1000000 % 60) ++
+        (if a % 86400000000 % 1000000 != 0 then '.' :: pad 6 (a % 86400000000 % 1000000) else []) ++ ['S'])))) : M Unit D) := by
+  have h1 : (a : Int) / 86400000000 = ((a / 86400000000 : Nat) : Int) := by omega
+  have h2 : (a : Int) % 86400000000 / 1000000 / 60 / 60 = ((a % 86400000000 / 1000000 / 60 / 60 : Nat) : Int) := by omega
+  have h3 : (a : Int) % 86400000000 / 1000000 / 60 % 60 = ((a % 86400000000 / 1000000 / 60 % 60 : Nat) : Int) := by omega
+  have h4 : (a : Int) % 86400000000 / 1000000 % 60 = ((a % 86400000000 / 1000000 % 60 : Nat) : Int) := by omega
+  have h5 : (a : Int) % 1000000 = ((a % 86400000000 % 1000000 : Nat) : Int) := by omega
+  by_cases hm : a % 86400000000 % 1000000 = 0
+  · have hz : ((a : Int) % 1000000 != 0) = false := by
+      have : (a : Int) % 1000000 = 0 := by omega
+      simp [this]
+    simp only [hz, Bool.false_eq_true, if_false, Except.bind, fmt_main, intRepr_of h1, padInt_of 2 h2, padInt_of 2 h3, padInt_of 2 h4]
+    refine congrArg _ (congrArg _ (congrArg _ ?_))
+    have hm2 : a % 1000000 = 0 := by omega
+    simp [hm2]
+  · have hz : ((a : Int) % 1000000 != 0) = true := by
+      have : (a : Int) % 1000000 ≠ 0 := by omega
+      simp [this]
+    simp only [hz, if_true, fmt_ms, Except.bind, fmt_main, intRepr_of h1, padInt_of 2 h2, padInt_of 2 h3, padInt_of 2 h4, padInt_of 6 h5]
+    refine congrArg _ (congrArg _ (congrArg _ ?_))
+    have hm2 : a % 1000000 ≠ 0 := by omega
+    simp [hm2]
+
+theorem C14_gen_duration_iso_string (W : Utv.Obj.World Unit) (us : Int) :
+    Encode.duration_iso_string W (mkDelta us) = .ok (.str (String.ofList (durationIso us))) := by
+  gen_obligation "C14_gen_duration_iso_string: the regenerated code (Utv.Gen) is no longer equal to the hand model here" by
+    unfold Encode.duration_iso_string
+    have h0 : timedeltaDays (OVal.int 0 : D) = .ok (mkDelta 0) := rfl
+    have h1 : neg (OVal.int 1 : D) = .ok (.int (-1)) := rfl
+    have hlt : Utv.Obj.lt (mkDelta us : D) (mkDelta 0) = .ok (decide (us < 0)) := by
+      simp only [Utv.Obj.lt, deltaUs_mk]
+      rfl
+    by_cases hneg : us < 0
+    · have hm : mul (mkDelta us : D) (.int (-1)) = .ok (mkDelta ((us.natAbs : Nat) : Int)) := by
+        have e : us * -1 = ((us.natAbs : Nat) : Int) := by omega
+        simp only [mul, deltaUs_mk, ← e]
+        rfl
+      simp only [h0, h1, hlt, hneg, hm, bind, Except.bind, pure, Except.pure, decide_true, if_true, ga_days, ga_seconds,
+        ga_micro, fd60, md60, truthy_int]
+      refine (body us.natAbs "-").trans ?_
+      refine congrArg _ (congrArg _ (congrArg _ ?_))
+      simp [durationIso, hneg]
+    · have e : us = ((us.natAbs : Nat) : Int) := by omega
+      have hn : ¬ ((us.natAbs : Nat) : Int) < 0 := by omega
+      simp only [h0, h1, hlt, hneg, bind, Except.bind, pure, Except.pure, decide_false, Bool.false_eq_true, if_false]
+      rw [e]
+      simp only [bind, Except.bind, pure, Except.pure, ga_days, ga_seconds, ga_micro, fd60, md60, truthy_int]
+      refine (body us.natAbs "").trans ?_
+      refine congrArg _ (congrArg _ (congrArg _ ?_))
+      simp [durationIso, hn]
+
+/-! ### `from_time`: which `isoformat` is asked for (the formatting itself is CPython's: the world's) -/
+
+/-- the `datetime.time` object: its `microsecond` and its `isoformat` method -/
+def encTime (t : TimeV) : D := .obj "time" [("microsecond", .int t.clock.us), ("isoformat", .fn 0)]
+
+theorem C14_gen_from_time (W : Utv.Obj.World Unit) (t : TimeV)
+    (hiso : W.call (.fn 0) [] = .ok (.str (String.ofList (isoTime t))))
+    (hms : W.ext "isoformat" [encTime t, .seq .tuple [.str "timespec", .str "milliseconds"]]
+      = .ok (.str (String.ofList (isoClockMs t.clock ++ isoTz t.tz)))) :
+    Encode.from_time W (encTime t) = .ok (.str (String.ofList (fromTime Cfg.fixed t))) := by
+  gen_obligation "C14_gen_from_time: the regenerated code (Utv.Gen) is no longer equal to the hand model here" by
+    have hms' := hms
+    simp only [encTime] at hms'
+    by_cases h : t.clock.us = 0
+    · obj_simp [Encode.from_time, encTime, getattr, lookupAttr, h, hiso, fromTime]
+    · have h' : ¬ ((t.clock.us : Nat) : Int) = 0 := by omega
+      obj_simp [Encode.from_time, encTime, getattr, lookupAttr, h, h', hms', fromTime, Cfg.fixed]
+
 end Utv.GenEq.C14
